@@ -120,6 +120,11 @@ type Prop struct {
 
 var registry = map[string]*Prop{}
 
+// commands are extra sub-commands of the binary (helper processes run under external monitors such as strace).
+var commands = map[string]func(args []string) int{}
+
+func RegisterCommand(name string, f func(args []string) int) { commands[name] = f }
+
 func Register(p *Prop) { registry[p.ID] = p }
 
 func Lookup(id string) *Prop { return registry[id] }
@@ -327,6 +332,9 @@ func Main() {
 	case "child":
 		os.Exit(childMain(os.Args[2:]))
 	default:
+		if f, ok := commands[os.Args[1]]; ok {
+			os.Exit(f(os.Args[2:]))
+		}
 		fmt.Fprintln(os.Stderr, "unknown command", os.Args[1])
 		os.Exit(2)
 	}
